@@ -55,6 +55,11 @@ def jobs(tier, seed):
         yield {"kind": k, "depth": DEPTH[tier]}
 
 
+def workers_per_build(tier, nper):
+    # 18 jobs per build: 9 workers per build finish in two rounds (three with the default 8)
+    return max(nper, (len(KINDS) + 1) // 2)
+
+
 def worker_init(env):
     from .. import progx
     progx.worker_init(env)
